@@ -334,7 +334,7 @@ def check_anchor_names(ctx, module):
             if not any(rx is None or rx.search(w) for w in have.get(name, [])):
                 gone.append("%s (of %s)" % (name, rec_re or "any class"))
     if gone:
-        raise AnalysisBroken("function(s) the rules are anchored on no longer exist (renamed or removed), cannot decide: %s" % ", ".join(gone))
+        raise AnalysisBroken("function(s) or data member(s) the rules are anchored on no longer exist (renamed or removed), cannot decide: %s" % ", ".join(gone))
 
 
 def generic_rules(ctx, module):
